@@ -37,7 +37,43 @@ inductive PObj where
   | inst (cls : PObj) (args : List PObj)      -- INST / OBJ
   | built (obj : PObj) (state : PObj)         -- BUILD
   | extended (obj : PObj) (items : List PObj) -- APPEND(S)/SETITEM(S)/ADDITEMS on a constructed object (obj.extend / obj[k]=v / obj.add)
-deriving Repr, BEq, Inhabited
+deriving Repr, Inhabited
+
+mutual
+/-- structural equality (kernel-reducible, unlike a derived `BEq` on a nested inductive) -/
+def PObj.beq : PObj → PObj → Bool
+  | .none, .none => true
+  | .bool a, .bool b => a == b
+  | .int a, .int b => a == b
+  | .float a, .float b => a == b
+  | .str a, .str b => a == b
+  | .bytes a, .bytes b => a == b
+  | .bytearray a, .bytearray b => a == b
+  | .list a, .list b => PObj.beqL a b
+  | .tuple a, .tuple b => PObj.beqL a b
+  | .dict a, .dict b => PObj.beqP a b
+  | .set a, .set b => PObj.beqL a b
+  | .frozenset a, .frozenset b => PObj.beqL a b
+  | .glob m n, .glob m' n' => m == m' && n == n'
+  | .noneType, .noneType => true
+  | .call f a, .call f' a' => PObj.beq f f' && PObj.beq a a'
+  | .newobj f a, .newobj f' a' => PObj.beq f f' && PObj.beq a a'
+  | .newobjEx f a k, .newobjEx f' a' k' => PObj.beq f f' && PObj.beq a a' && PObj.beq k k'
+  | .inst f a, .inst f' a' => PObj.beq f f' && PObj.beqL a a'
+  | .built f a, .built f' a' => PObj.beq f f' && PObj.beq a a'
+  | .extended f a, .extended f' a' => PObj.beq f f' && PObj.beqL a a'
+  | _, _ => false
+def PObj.beqL : List PObj → List PObj → Bool
+  | [], [] => true
+  | x :: xs, y :: ys => PObj.beq x y && PObj.beqL xs ys
+  | _, _ => false
+def PObj.beqP : List (PObj × PObj) → List (PObj × PObj) → Bool
+  | [], [] => true
+  | (k, v) :: xs, (k', v') :: ys => PObj.beq k k' && PObj.beq v v' && PObj.beqP xs ys
+  | _, _ => false
+end
+
+instance : BEq PObj := ⟨PObj.beq⟩
 
 inductive Resolve where | ok | noModule | noAttr
 deriving Repr, BEq, DecidableEq
@@ -132,8 +168,9 @@ def constructed : PObj → Bool
   | _ => false
 
 /-- `persistent_load(pid)` of the restricted unpickler -/
-def persistentLoad (pid : PObj) : PObj :=
-  if pid == .str "<<NoneType>>" then .noneType else .none
+def persistentLoad : PObj → PObj
+  | .str s => if s = "<<NoneType>>" then .noneType else .none
+  | _ => .none
 
 /-- pop everything above the topmost MARK (items oldest first) and restore the stack below it -/
 def popMark (s : St) : Except Err (List PObj × St) :=
